@@ -4,7 +4,10 @@ import (
 	"crypto"
 	"fmt"
 	"math"
+	"math/big"
+	"time"
 
+	"github.com/fxamacker/cbor/v2"
 	cose "github.com/veraison/go-cose"
 
 	"verif/harness/mon"
@@ -38,8 +41,42 @@ func Custom(v any) (*Node, error) {
 			kids = append(kids, n)
 		}
 		return refcbor.NArr(kids...), nil
+	case time.Time:
+		return refcbor.NInt(x.Unix()), nil
+	case big.Int:
+		return bigNode(&x), nil
+	case *big.Int:
+		if x == nil {
+			return refcbor.NNull(), nil
+		}
+		return bigNode(x), nil
+	case cbor.Tag:
+		// (the type is only pattern-matched to read Number and Content; no encoding logic of the
+		// CBOR library is involved)
+		c, err := refcose.GoToNode(x.Content, Custom)
+		if err != nil {
+			return nil, err
+		}
+		return refcbor.NTag(x.Number, c), nil
 	}
 	return nil, nil
+}
+
+// bigNode is the preferred serialisation of an arbitrary-size integer (RFC 8949 3.4.3): a plain
+// integer when it fits 64 bits, else a bignum tag around the minimal big-endian magnitude.
+func bigNode(x *big.Int) *Node {
+	if x.Sign() >= 0 {
+		if x.IsUint64() {
+			return refcbor.NUint(x.Uint64())
+		}
+		return refcbor.NTag(2, refcbor.NBstr(x.Bytes()))
+	}
+	n := new(big.Int).Neg(x)
+	n.Sub(n, big.NewInt(1)) // -1 - x
+	if n.IsUint64() {
+		return &Node{Major: refcbor.Nint, Arg: n.Uint64()}
+	}
+	return refcbor.NTag(3, refcbor.NBstr(n.Bytes()))
 }
 
 func countersigNode(c *cose.Countersignature) (*Node, error) {
